@@ -3,7 +3,7 @@
    Model/Exchange.v for every event sequence; real time ("promptly", "at the
    configured interval"), the OS socket layer and goroutine reclamation are
    observed by the harness, not proved. *)
-From Radius Require Import Base.Bytes Base.Res Model.Attrs Model.Packet Model.Client Model.Exchange Proofs.Exchange.
+From Radius Require Import Base.Bytes Base.Res Model.Attrs Model.Packet Model.Client Model.Exchange Proofs.Exchange Proofs.ExchangeShape.
 Open Scope nat_scope.
 
 Section S.
@@ -54,6 +54,13 @@ Example C08_example :
   length (sent (xrun md5 0 0 false rq xinit [XStep; XStep; XTick; XTick])) = 1.
 Proof. vm_compute. repeat split. Qed.
 
+(* Client.Exchange as written performs the operations of the model in the model's order on every path: encode before
+   dial, one write before the helper goroutine exists, the helper writes only on a tick and closes the socket when the
+   context ends, every return after a successful dial runs Stop / cancel / Close (Proofs/ExchangeShape.v; the skeleton
+   is read from the working tree on every run) *)
+Theorem C08_code_order : exchange_order.
+Proof. exact exchange_order_holds. Qed.
+
 Print Assumptions C08_invariant.
 Print Assumptions C08_sends_are_wire.
 Print Assumptions C08_no_retry_when_nonpositive.
@@ -61,3 +68,4 @@ Print Assumptions C08_nothing_after_return.
 Print Assumptions C08_returns_after_ctx_done.
 Print Assumptions C08_flood_cannot_starve_cancellation.
 Print Assumptions C08_dial_failure_maps_to_ctx.
+Print Assumptions C08_code_order.
